@@ -114,6 +114,15 @@ def gen(ctx, p):
     g = p["gen"]
     ctx.info["op"] = g
     ctx.info["args"] = {k: v for k, v in p.items() if k not in ("gen", "shape")}
+    try:
+        _gen_body(ctx, p, g)
+    except Exception as ex:
+        # every parameter tuple of the grid is admissible: a generator that raises violates
+        # "probability 0 / 1 ... without error" and the structural promises alike
+        ctx.require(False, f"{g}: raised {type(ex).__name__} for admissible parameters")
+
+
+def _gen_body(ctx, p, g):
     if g in ("fast_random_hypergraph", "random_hypergraph"):
         n, ps = p["n"], p["ps"]
         f = getattr(xgi, g)
